@@ -35,6 +35,13 @@ def build_write_reply(ids, statuses, shape, malformed, dup):
     entries = [{"aid": a, "iid": i, "status": s} for (a, i), s in zip(ids, statuses)]
     if shape == "204":
         return 204, b""
+    if shape.startswith("global"):
+        # request-wide error: {"status": g} with no list at all / with a list mentioning only the first id
+        g = next((s for s in statuses if s != 0), -70407)
+        body = {"status": g}
+        if shape == "global-partial-list":
+            body["characteristics"] = entries[:1]
+        return 207, json.dumps(body).encode()
     if shape == "207-failed-only":
         entries = [e for e in entries if e["status"] != 0]
     if dup and entries:
@@ -58,6 +65,15 @@ def case_ip_write(p):
         for statuses, shape, malformed, dup in p["replies"]:
             if shape == "204" and any(statuses):
                 continue
+            if shape.startswith("global"):
+                if not any(statuses):
+                    continue
+                g = next(s for s in statuses if s != 0)
+                # no list at all: the request-wide error rejects everything.  partial list: only the mentioned id is judged, the ids a reply
+                # does not mention are don't-care (DESIGN section 7)
+                eff = [g] * len(ids) if shape == "global-no-list" else [statuses[0] if statuses[0] != 0 else None] + [None] * (len(ids) - 1)
+            else:
+                eff = list(statuses)
             n += 1
             reply["code"], reply["body"] = build_write_reply(ids, statuses, shape, malformed, dup)
             del notes[:]
@@ -72,7 +88,7 @@ def case_ip_write(p):
                 rig.connect()
             if raised is not None:
                 # raising is an acceptable way to fail a write with rejections; never acceptable for malformed-only or all-accepted replies
-                if not any(statuses):
+                if not any(eff):
                     out.append((f"ip:write-raises-on-accepted-write:{type(raised).__name__}:malformed={malformed}", det))
                 elif malformed != "none":
                     out.append((f"ip:write-raises-on-malformed-entry:{type(raised).__name__}:{malformed}", det))
@@ -80,12 +96,14 @@ def case_ip_write(p):
             notified = {}
             for ev in notes:
                 notified.update(ev)
-            for k, s in zip(ids, statuses):
+            for k, s in zip(ids, eff):
                 r = res.get(k)
+                if s is None:
+                    continue  # first id of a partial list under a global error with its own status 0: not judged
                 if s != 0:
                     if r is None or r.get("status") in (0, None):
                         out.append(("ip:rejected-write-not-reported", dict(det, key=k, result=res)))
-                    elif r["status"] not in (s, -abs(s)):
+                    elif r["status"] not in (s, -abs(s)) and not shape.startswith("global"):
                         out.append(("ip:rejected-write-reported-with-other-status", dict(det, key=k, got=r["status"])))
                     if k in notified:
                         out.append(("ip:listener-notified-of-rejected-write", dict(det, key=k)))
@@ -220,6 +238,9 @@ def plan(tier):
         for vec in vectors(len(ids), quick):
             for shape in ("204", "207-full", "207-failed-only", "200-list"):
                 reps.append((list(vec), shape, "none", False))
+            if vec[0] != 0 and not any(vec[1:]):
+                for shape in ("global-no-list", "global-partial-list"):
+                    reps.append((list(vec), shape, "none", False))
         base = [0] * len(ids)
         rej = [-70402] + [0] * (len(ids) - 1)
         for m in MALFORMED:
